@@ -2,6 +2,7 @@ package rules
 
 import (
 	"go/token"
+	"go/types"
 	"strings"
 
 	"gunyucheck/core"
@@ -272,4 +273,33 @@ func everyPathToPasses(f *ssa.Function, target *ssa.BasicBlock, is func(core.Sit
 		bad = true
 	})
 	return ok && !bad && n > 0
+}
+
+// nilLookupFound: the fact says `m[k] != nil` for a key k that satisfies isKey, m a map whose element type has a
+// nil value (pointer, slice, map, channel, function, interface). A key that is absent reads as that nil value, so
+// the fact implies that the key is present — the same knowledge as the `ok` of `v, ok := m[k]`, and stronger.
+func nilLookupFound(fct core.Fact, isKey func(ssa.Value) bool) bool {
+	c, ok := core.FactCmp(fct)
+	if !ok || c.Op != token.NEQ {
+		return false
+	}
+	v := c.X
+	if core.IsNilConst(c.X) {
+		v = c.Y
+	} else if !core.IsNilConst(c.Y) {
+		return false
+	}
+	lk, ok := core.Unwrap(v).(*ssa.Lookup)
+	if !ok || lk.CommaOk || !isKey(lk.Index) {
+		return false
+	}
+	m, ok := lk.X.Type().Underlying().(*types.Map)
+	if !ok {
+		return false
+	}
+	switch m.Elem().Underlying().(type) {
+	case *types.Pointer, *types.Slice, *types.Map, *types.Chan, *types.Signature, *types.Interface:
+		return true
+	}
+	return false
 }
